@@ -1398,10 +1398,47 @@ def r4_allow(run):
                           fac, fcfg.node(r).ast)
     # 405 closure raises HTTPMethodNotAllowed(<the live list>)
     naparams = fna.params()
+
+    def bound_once_in_factory(name: str):
+        """Value of a local the factory body binds exactly once (and no closure rebinds): read through by the closures."""
+        if name in naparams:
+            return None
+        vals = [n.value for n in walk_self(fna.node) if isinstance(n, (ast.Assign, ast.AnnAssign)) and n.value is not None
+                for t in (n.targets if isinstance(n, ast.Assign) else [n.target]) if isinstance(t, ast.Name) and t.id == name]
+        others = [x for n in ast.walk(fna.node) for x in [n] if (isinstance(x, ast.Name) and x.id == name and not isinstance(x.ctx, ast.Load))
+                  or (isinstance(x, (ast.Nonlocal, ast.Global)) and name in x.names)]
+        return vals[0] if len(vals) == 1 and len(others) == 1 else None
+
+    def is_405_class(g, fn) -> bool:
+        # the class itself, or an alias of it bound once in the factory (`error_cls = HTTPMethodNotAllowed`); an alias of an
+        # INSTANCE built in the factory (`error = HTTPMethodNotAllowed(...)`; `raise error`) is not a class and is not read through
+        if p.resolve_expr(g.module, fn, g) == 'falcon.errors.HTTPMethodNotAllowed':
+            return True
+        if isinstance(fn, ast.Name):
+            v = bound_once_in_factory(fn.id)
+            return v is not None and isinstance(v, (ast.Name, ast.Attribute)) and p.resolve_expr(fna.module, v, fna) == 'falcon.errors.HTTPMethodNotAllowed'
+        return False
+
+    def is_method_list(a) -> bool:
+        # the factory's parameter, or a list()/tuple() copy of it taken once in the factory body (the factory is called after
+        # "OPTIONS" was appended -- obligation (2) above -- so a copy made there holds the same methods)
+        def copy_of_param(v) -> bool:
+            return (isinstance(v, ast.Call) and isinstance(v.func, ast.Name) and v.func.id in ('list', 'tuple') and len(v.args) == 1
+                    and not v.keywords and isinstance(v.args[0], ast.Name) and v.args[0].id == naparams[0])
+        if copy_of_param(a):
+            return True
+        if not isinstance(a, ast.Name):
+            return False
+        if a.id == naparams[0]:
+            return True
+        v = bound_once_in_factory(a.id)
+        return (v is not None and isinstance(v, ast.Call) and isinstance(v.func, ast.Name) and v.func.id in ('list', 'tuple')
+                and len(v.args) == 1 and not v.keywords and isinstance(v.args[0], ast.Name) and v.args[0].id == naparams[0])
+
     for g in fna.nested.values():
         raises = [n for n in walk_self(g.node) if isinstance(n, ast.Raise)]
-        ok = len(raises) == 1 and isinstance(raises[0].exc, ast.Call) and p.resolve_expr(g.module, raises[0].exc.func, g) == 'falcon.errors.HTTPMethodNotAllowed' \
-            and len(raises[0].exc.args) == 1 and isinstance(raises[0].exc.args[0], ast.Name) and raises[0].exc.args[0].id == naparams[0]
+        ok = len(raises) == 1 and isinstance(raises[0].exc, ast.Call) and is_405_class(g, raises[0].exc.func) \
+            and len(raises[0].exc.args) == 1 and not raises[0].exc.keywords and is_method_list(raises[0].exc.args[0])
         run.check(ok, 'the default 405 responder raises HTTPMethodNotAllowed with the factory\'s method list', g, raises[0] if raises else g.node.name)
     # OPTIONS closure: 200 + Allow: <snapshot>
     status200 = p.fold(fopt.module, ast.Name('HTTP_200', ast.Load()), None, None)
@@ -2295,6 +2332,143 @@ def _match_decides_on_raw_path(run, init: Func, match: Func, pparam: str, stored
                   runtime_witness='GET /./static/a.txt or ///static/a.txt is claimed by a static route whose prefix it does not start with: '
                                   'the fallback file is served with 200 where an older sink or a 404 should answer')
 
+# ---------------------------------------------------------------------------
+# R9 the flavour flag of the default-responder helpers
+# ---------------------------------------------------------------------------
+
+# documented contract of the public helpers (docs/api/routing.rst "Custom Routers", the helpers' own Args sections:
+# "asgi (bool): True if using an ASGI app, False otherwise (default False)"): called without the flag they serve a WSGI app
+DEFAULT_FLAVOUR_IS_ASYNC = False
+
+
+def _param_default(f: Func, name: str):
+    """(has the parameter, its default expression or None)."""
+    a = f.node.args
+    pos = a.posonlyargs + a.args
+    for i, x in enumerate(pos):
+        if x.arg == name:
+            k = i - (len(pos) - len(a.defaults))
+            return True, (a.defaults[k] if k >= 0 else None)
+    for x, d in zip(a.kwonlyargs, a.kw_defaults):
+        if x.arg == name:
+            return True, d
+    return False, None
+
+
+def _flag_argument(callee: Func, call: ast.Call, flag: str):
+    """The expression a call passes for the callee's parameter `flag` (None when it relies on the default)."""
+    if any(isinstance(x, ast.Starred) for x in call.args) or any(k.arg is None for k in call.keywords):
+        raise UnknownIdiom('call %s spreads its arguments' % short(call, 80))
+    for k in call.keywords:
+        if k.arg == flag:
+            return k.value
+    a = callee.node.args
+    pos = [x.arg for x in a.posonlyargs + a.args]
+    if flag in pos and pos.index(flag) < len(call.args):
+        return call.args[pos.index(flag)]
+    return None
+
+
+def _factory_flag(p, fac: Func) -> str:
+    """The parameter of a responder factory whose truth selects the coroutine closure (read off the factory: every
+    `return <async closure>` is dominated by the true outcome of a test of that parameter)."""
+    closures = list(fac.nested.values())
+    asyncs = [g for g in closures if g.is_async]
+    if not asyncs or len(asyncs) == len(closures):
+        raise AnchorError('%s: expected a sync and an async closure' % fac.qual)
+    cfg = cfg_of(fac, p)
+    rets = [n.id for n in cfg.live_nodes() if n.kind == 'stmt' and isinstance(n.ast, ast.Return) and isinstance(n.ast.value, ast.Name)
+            and n.ast.value.id in {g.node.name for g in asyncs}]
+    if not rets:
+        raise UnknownIdiom('%s: the coroutine closure is not returned by name' % fac.qual)
+    found = []
+    for prm in fac.params():
+        sel = _truth_edges(cfg, lambda e, prm=prm: isinstance(e, ast.Name) and e.id == prm, True)
+        if sel and not (set(rets) & flow.reachable(cfg, [cfg.entry], avoid_edges=sel)):
+            found.append(prm)
+    return single(found, 'parameter whose truth selects the coroutine closure', fac.qual)
+
+
+def r9_flavour_flag(run):
+    """The helpers that hand out the default 405 / OPTIONS responders come in a sync and a coroutine flavour selected
+    by one flag.  (a) Its default -- in both factories and in set_default_responders, the documented entry point of
+    custom routers -- selects the WSGI flavour (the documented `asgi=False`; the flag is located by what it selects,
+    the default is folded, not matched as text).  (b) No call site inside the framework relies on that default: each
+    passes the flag, and set_default_responders passes its own flag on unchanged.
+    W: WSGI App(router=custom) whose add_route() calls set_default_responders(method_map): POST on a GET-only
+    resource answers 200 without Allow (a coroutine 405 responder is created and never awaited)."""
+    p = run.project
+    sdr = p.func(UTIL + '.set_default_responders')
+    facs = [p.func(RESP + '.create_method_not_allowed'), p.func(RESP + '.create_default_options')]
+    flags: Dict[str, str] = {fac.qual: _factory_flag(p, fac) for fac in facs}
+    # the flag of set_default_responders: the one parameter that reaches the factories' flag
+    passed = []
+    inner_calls = []
+    for c in walk_self(sdr.node):
+        if isinstance(c, ast.Call):
+            t = p.callee(sdr, c)
+            if isinstance(t, Func) and t.qual in flags:
+                inner_calls.append((c, t))
+                v = _flag_argument(t, c, flags[t.qual])
+                if isinstance(v, ast.Name) and v.id in sdr.params():
+                    passed.append(v.id)
+    if len(inner_calls) < 2:
+        raise AnchorError('%s does not call both responder factories' % sdr.qual)
+    if len(set(passed)) > 1:
+        raise UnknownIdiom('%s hands different parameters to the factories\' flavour flag: %s' % (sdr.qual, sorted(set(passed))))
+    if not passed:
+        # no parameter reaches a factory flag at all: (b) below reports each site; there is no default to judge here
+        sdr_flag = None
+    else:
+        sdr_flag = passed[0]
+        flags[sdr.qual] = sdr_flag
+    # (a) defaults
+    for f in facs + [sdr]:
+        flag = flags.get(f.qual)
+        if flag is None:
+            continue
+        run.use(f)
+        _has, d = _param_default(f, flag)
+        if d is None:
+            run.ok('the flavour flag %r of %s has no default: every caller chooses' % (flag, f.name), f.loc(), '%s(%s)' % (f.name, flag))
+            continue
+        v = p.fold(f.module, d, None, None)
+        if v is UNKNOWN:
+            raise UnknownIdiom('%s: default of %s does not fold to a constant: %s' % (f.qual, flag, short(d, 60)))
+        run.check(bool(v) == DEFAULT_FLAVOUR_IS_ASYNC, 'called without the flavour flag %r, %s serves a WSGI app: the default selects the sync '
+                  'responders (documented default False)' % (flag, f.name), f, '%s: %s = %s' % (f.name, flag, short(d, 40)), where=f.loc(),
+                  runtime_witness='WSGI App(router=custom router calling %s(...) without the flag): an unimplemented method gets a coroutine '
+                                  'responder that is never awaited: 200 without Allow instead of 405' % f.name)
+    # (b) framework call sites
+    targets = {f.qual: f for f in facs + [sdr]}
+    names = {f.name for f in targets.values()}
+    n_sites = 0
+    for g in list(p.funcs.values()):
+        for c in walk_self(g.node):
+            if not isinstance(c, ast.Call):
+                continue
+            fn = c.func
+            nm = fn.attr if isinstance(fn, ast.Attribute) else fn.id if isinstance(fn, ast.Name) else None
+            if nm not in names:
+                continue
+            t = p.callee(g, c)
+            if not isinstance(t, Func) or t.qual not in targets:
+                continue
+            flag = flags.get(t.qual)
+            if flag is None:
+                continue
+            n_sites += 1
+            v = _flag_argument(t, c, flag)
+            ok = v is not None
+            what = 'the framework\'s call of %s passes the flavour flag explicitly' % t.name
+            if ok and g is sdr and sdr_flag is not None:
+                ok = isinstance(v, ast.Name) and v.id == sdr_flag
+                what += ' -- its own flag %r, unchanged' % sdr_flag
+            run.check(ok, what, g, c, where=g.loc(c),
+                      runtime_witness='an ASGI app gets sync default responders (add_route refuses every resource) or a WSGI app coroutine ones')
+    if n_sites < 3:
+        raise AnchorError('fewer than three framework call sites of the default-responder helpers resolved (%d)' % n_sites)
+
 
 def check(run):
     run.assume('router.find() returns None or a tuple whose first component is the resource (None for legacy routers that found nothing)')
@@ -2317,3 +2491,4 @@ def check(run):
 
     run.rule('R8', _c01.r10_finder_invalidated, 'every accepted add_route invalidates or rebuilds the compiled finder, so a newly added route masks the '
              'fallbacks from its first request on (shared with C01 R10)', floor=3)
+    run.rule('R9', r9_flavour_flag, 'the flavour flag of set_default_responders / the responder factories defaults to the WSGI flavour and every framework call site passes it', floor=6)
